@@ -267,6 +267,52 @@ theorem C01_mpoint_roundtrip (l : Layout) (cs : List (Option (List α))) (g : G2
     have := mpCoordsLoop_ok [] [] cs l.stride hs hall
     simpa [MPoint.coords] using this
 
+/-- **NewMultiPointFlat without explicit ends** over a whole number of coordinates is the MultiPoint
+whose members are exactly those coordinates (none empty): the same value SetCoords builds, hence
+well formed and read back exactly. -/
+theorem C01_newMultiPointFlat (l : Layout) (hs : 0 < l.stride) (cs : List (List α))
+    (hall : ∀ c ∈ cs, c.length = l.stride) :
+    MPoint.setCoords l (cs.map some) = .ok (MPoint.newFlat l cs.flatten none) ∧
+    MPoint.coords (MPoint.newFlat l cs.flatten none) = .ok (cs.map some) := by
+  have hsomes : ∀ xs : List (List α), somes (xs.map some) = xs := by
+    intro xs; induction xs with
+    | nil => rfl
+    | cons x xs ih => simp [somes, ih]
+  have hfind : (somes (cs.map some)).find? (badLen l.stride) = none := by
+    rw [hsomes, List.find?_eq_none]; intro c hc; simp [badLen, hall c hc]
+  have hends : ∀ (off : Nat) (xs : List (List α)), (∀ c ∈ xs, c.length = l.stride) →
+      mpEndsOf off (xs.map some) = (List.range xs.length).map fun i => off + (i + 1) * l.stride := by
+    intro off xs
+    induction xs generalizing off with
+    | nil => intro _; rfl
+    | cons x xs ih =>
+      intro hx
+      have hxl : x.length = l.stride := hx x (by simp)
+      simp only [List.map_cons, mpEndsOf, List.length_cons, List.range_succ_eq_map, List.map_cons,
+        List.map_map, hxl]
+      rw [ih _ (fun c hc => hx c (by simp [hc]))]
+      simp only [Nat.zero_add, Nat.one_mul, List.cons.injEq, true_and]
+      apply List.map_congr_left
+      intro i _
+      simp only [Function.comp]
+      have : (i.succ + 1) * l.stride = (i + 1) * l.stride + l.stride := Nat.succ_mul (i + 1) l.stride
+      omega
+  have hlen := flatten_length_of_all cs l.stride hall
+  have heq : MPoint.newFlat l cs.flatten none
+      = { layout := l, stride := l.stride, flat := (somes (cs.map some)).flatten,
+          ends := mpEndsOf 0 (cs.map some) } := by
+    unfold MPoint.newFlat
+    rw [hsomes, hends 0 cs hall]
+    simp only [hs, if_true, hlen, Nat.mul_div_cancel _ hs, Nat.zero_add]
+    by_cases hc : cs = []
+    · subst hc; simp
+    · have : 0 < cs.length * l.stride := Nat.mul_pos (List.length_pos_iff.mpr hc) hs
+      simp [this]
+  constructor
+  · rw [mpoint_set_eq, hfind, heq]
+  · rw [heq]
+    exact C01_mpoint_roundtrip l (cs.map some) _ (by rw [mpoint_set_eq, hfind]) hs
+
 /-! ### Point -/
 
 theorem C01_point (l : Layout) (c : List α) :
